@@ -13,6 +13,7 @@
 -/
 import GormModel.Gen.CloneFacts
 import GormModel.Gen.CloneInit
+import GormModel.Gen.FinisherWrites
 namespace Gorm.Upsert
 
 /-- schema/field.go: the field attributes the modelled code branches on -/
@@ -21,6 +22,7 @@ inductive ColKind where
   | plain
   | clientDefault (d : Nat)  -- `default:x` parsed into DefaultValueInterface (applied by gorm)
   | dbDefault (d : Nat)      -- `default:(expr)`: HasDefaultValue && DefaultValueInterface == nil (applied by the database)
+  | dbNull                   -- `default:null`: like dbDefault (left out of the INSERT when zero) but NOT skipped by UpdateAll
   | autoCreate               -- AutoCreateTime > 0
   | autoUpdate               -- AutoUpdateTime > 0
   | softDelete               -- gorm.DeletedAt (plain column for writes; `IS NULL` filter on query/update)
@@ -81,6 +83,7 @@ def inInsert (sch : Schema) (v : Row) (c : Nat) : Bool :=
   match sch.kind c with
   | .pk => v c != 0
   | .dbDefault _ => v c != 0
+  | .dbNull => v c != 0
   | _ => true
 
 /-- the row the database inserts = `excluded.*`: omitted columns get their DB default / next rowid -/
@@ -139,6 +142,7 @@ def backfill (sch : Schema) (v1 new : Row) : Row := fun c =>
   match sch.kind c with
   | .pk => new c
   | .dbDefault _ => new c
+  | .dbNull => new c
   | _ => v1 c
 
 /-- callbacks/create.go Create on one struct, with an optional ON CONFLICT rule, against the key→row
@@ -159,6 +163,107 @@ def insertRow (sch : Schema) (s : Store) (rule : Option Rule) (v : Row) : Out :=
       | some asg =>
         let new := applyAsg old p asg
         { store := s.put k new, val := backfill sch v1 new, ra := 1, err := .ok }
+
+/-! ### inserts whose column list is a subset of the model's columns
+
+  callbacks/create.go ConvertToCreateValues (struct branch with Select/Omit; map branch = callbacks/helper.go
+  ConvertMapToValuesForCreate) and the `OnConflict.UpdateAll` expansion, which ranges over `values.Columns`
+  — the columns of THIS insert — not over the schema. -/
+
+/-- how the value reaches Create -/
+inductive Src where
+  | struct (sel om : List Nat)   -- `Select(cols…)` / `Omit(cols…)` on the chain (both empty = unrestricted), Create(&struct)
+  | map (keys : List Nat)          -- `Model(&T{}).Create(map[string]interface{}{…})`: exactly the map's keys
+deriving DecidableEq, Repr
+
+/-- statement.go SelectAndOmitColumns: `some true` = selected, `some false` = omitted (Omit is processed last
+    and wins), `none` = not mentioned -/
+def mention (sel om : List Nat) (c : Nat) : Option Bool :=
+  if om.contains c then some false else if sel.contains c then some true else none
+
+/-- `(ok && v) || (!ok && !restricted)` with `restricted = len(stmt.Selects) > 0` -/
+def allowed (sel om : List Nat) (c : Nat) : Bool :=
+  match mention sel om c with
+  | some b => b
+  | none => sel.isEmpty
+
+/-- is column `c` in `values.Columns` (create.go l.248-254: tracked times stay under a Select restriction;
+    l.335-342: default-DB-value fields only when non-zero; helper.go l.22-37: map keys) -/
+def Src.listed (sch : Schema) : Src → Row → Nat → Bool
+  | .struct sel om, v, c =>
+    match sch.kind c with
+    | .pk => allowed sel om c && v c != 0
+    | .dbDefault _ => allowed sel om c && v c != 0
+    | .dbNull => allowed sel om c && v c != 0
+    | .autoCreate => mention sel om c != some false
+    | .autoUpdate => mention sel om c != some false
+    | _ => allowed sel om c
+  | .map keys, _, c => keys.contains c
+
+/-- the second filter of the UpdateAll expansion, `SelectAndOmitColumns(true, true)` (create.go l.351, l.356) -/
+def Src.updatable : Src → Nat → Bool
+  | .struct sel om, c => allowed sel om c
+  | .map _, _ => true
+
+/-- zero value ⇒ client default / NOW, for the listed columns only (the loop ranges over values.Columns);
+    a map is sent as it is -/
+def Src.fill (sch : Schema) (src : Src) (v : Row) : Row :=
+  match src with
+  | .struct _ _ => fun c => if src.listed sch v c then fillCreate sch v c else v c
+  | .map _ => v
+
+/-- the row the database inserts = `excluded.*`: a column the INSERT does not list gets the column's DEFAULT
+    (rowid / `default:(expr)` / `default:x`, which the migrator also declares) or NULL -/
+def proposedIns (sch : Schema) (next : Nat) (ins : Nat → Bool) (v1 : Row) : Row := fun c =>
+  if ins c then v1 c else
+    match sch.kind c with
+    | .pk => next
+    | .dbDefault d => d
+    | .clientDefault d => d
+    | _ => 0
+
+/-- create.go l.348-392 over an arbitrary INSERT column list: a column is assigned on conflict only if the
+    INSERT lists it (`for _, column := range values.Columns`) and Select/Omit allow it; then primary key,
+    default-DB-value columns (except `default:null`) and the auto-create time are skipped -/
+def updateAllIns (sch : Schema) (src : Src) (ins : Nat → Bool) (c : Nat) : Option Asg :=
+  if ins c && src.updatable c then
+    match sch.kind c with
+    | .pk => none
+    | .dbDefault _ => none
+    | .autoCreate => none
+    | .autoUpdate => some (.lit NOW)
+    | _ => some .excluded
+  else none
+
+def resolveIns (sch : Schema) (src : Src) (ins : Nat → Bool) : Rule → Option (Nat → Option Asg)
+  | .doNothing => none
+  | .doUpdates as => some (lookupAsg as)
+  | .updateAll =>
+    if (List.range sch.ncols).any (fun c => (updateAllIns sch src ins c).isSome) then some (updateAllIns sch src ins) else none
+
+/-- RETURNING is scanned back into a struct; a map keeps what the caller put in (not judged) -/
+def Src.writeBack (sch : Schema) : Src → Row → Row → Row
+  | .struct _ _, v1, new => backfill sch v1 new
+  | .map _, v1, _ => v1
+
+/-- Create of one value supplied through `src`, with an optional ON CONFLICT rule -/
+def insertFrom (sch : Schema) (s : Store) (rule : Option Rule) (src : Src) (v : Row) : Out :=
+  let ins := src.listed sch v
+  let v1 := src.fill sch v
+  let p := proposedIns sch s.next ins v1
+  let k := p 0
+  match s.rows k with
+  | none => { store := { rows := fun j => if j = k then some p else s.rows j, next := max s.next (k + 1) },
+              val := src.writeBack sch v1 p, ra := 1, err := .ok }
+  | some old =>
+    match rule with
+    | none => { store := s, val := v1, ra := 0, err := .unique }
+    | some r =>
+      match resolveIns sch src ins r with
+      | none => { store := s, val := v1, ra := 0, err := .ok }
+      | some asg =>
+        let new := applyAsg old p asg
+        { store := s.put k new, val := src.writeBack sch v1 new, ra := 1, err := .ok }
 
 /-! ### finisher_api.go Save (struct branch) -/
 
@@ -370,6 +475,7 @@ def Handle.run (cfg : CloneCfg) (h : Handle) (steps : List Step) : Handle := ste
 inductive Fin where
   | save (v : Row)
   | create (v : Row)
+  | createFrom (src : Src) (v : Row)    -- Create of a map / under Select/Omit (partial INSERT column list)
   | firstOrInit (inl : List Cond)       -- inline conds of the finisher call
   | firstOrCreate (inl : List Cond)
 
@@ -377,6 +483,7 @@ inductive Fin where
 def finish (cfg : CloneCfg) (sch : Schema) (s : Store) (h : Handle) : Fin → Out
   | .save v => save sch s v
   | .create v => insertRow sch s (getInstance cfg h).stmt.oc v
+  | .createFrom src v => insertFrom sch s (getInstance cfg h).stmt.oc src v
   | .firstOrInit inl =>
     -- `db.Limit(1)` : getInstance; attrs/assigns are read from that statement
     let t := getInstance cfg h
@@ -390,6 +497,67 @@ def finish (cfg : CloneCfg) (sch : Schema) (s : Store) (h : Handle) : Fin → Ou
 /-- a whole program: chain from the base handle, then the finisher -/
 def runChain (cfg : CloneCfg) (sch : Schema) (s : Store) (steps : List Step) (f : Fin) : Out :=
   finish cfg sch s (Handle.base.run cfg steps) f
+
+/-! ### reusable handles: a handle left by Session / WithContext is used for several finishers
+
+  gorm.go Session l.226-: `clone = 2`, the Statement POINTER is shared by every chain started from the handle
+  (getInstance clones it on the next derivation). A finisher that writes a field of its receiver's Statement
+  therefore changes every later use. Which fields the finishers write through their receiver is NOT written
+  here: it is the parameter `RecvW`, instantiated by `genRecvW` from the regenerated `Gen.finisherStmtWrites`. -/
+
+inductive FinKind where
+  | save | create | firstOrInit | firstOrCreate
+deriving DecidableEq, Repr
+
+/-- the Statement fields the modelled finishers read -/
+inductive Fld where
+  | clauses | attrs | assigns
+deriving DecidableEq, Repr
+
+def Fin.kind : Fin → FinKind
+  | .save _ => .save
+  | .create _ => .create
+  | .createFrom _ _ => .create
+  | .firstOrInit _ => .firstOrInit
+  | .firstOrCreate _ => .firstOrCreate
+
+def FinKind.goName : FinKind → String
+  | .save => "DB.Save" | .create => "DB.Create" | .firstOrInit => "DB.FirstOrInit" | .firstOrCreate => "DB.FirstOrCreate"
+
+def Fld.goName : Fld → String
+  | .clauses => "Clauses" | .attrs => "attrs" | .assigns => "assigns"
+
+/-- does finisher `k` write field `f` of its RECEIVER's statement -/
+abbrev RecvW := FinKind → Fld → Bool
+
+/-- the facts of the CURRENT source tree -/
+def genRecvW : RecvW := fun k f =>
+  Gen.finisherStmtWrites.any (fun w => w.fn == k.goName && w.recv && w.field == f.goName)
+
+/-- the receiver's statement after the finisher ran on it: a field written through the receiver no longer
+    holds what the chain put there (modelled as reset — the realistic shape "consume and clear") -/
+def stmtAfter (w : RecvW) (st : Stmt) (k : FinKind) : Stmt :=
+  { conds := if w k .clauses then [] else st.conds,
+    oc := if w k .clauses then none else st.oc,
+    attrs := if w k .attrs then none else st.attrs,
+    assigns := if w k .assigns then none else st.assigns }
+
+/-- `h` is used for several finishers in a row, each preceded by further chain steps (possibly none); every
+    use starts from the table the previous one left. The finisher's receiver is `h` itself only when no chain
+    step precedes it — any step derives a fresh statement first (`h.clone ≥ 1`). -/
+def useSeq (cfg : CloneCfg) (w : RecvW) (sch : Schema) : Store → Handle → List (List Step × Fin) → List Out
+  | _, _, [] => []
+  | s, h, u :: rest =>
+    let o := finish cfg sch s (h.run cfg u.1) u.2
+    let h' : Handle := if u.1.isEmpty then { h with stmt := stmtAfter w h.stmt u.2.kind } else h
+    o :: useSeq cfg w sch o.store h' rest
+
+/-- the same uses, each written as a chain of its own from the base handle -/
+def chainSeq (cfg : CloneCfg) (sch : Schema) (pre : List Step) : Store → List (List Step × Fin) → List Out
+  | _, [] => []
+  | s, u :: rest =>
+    let o := runChain cfg sch s (pre ++ u.1) u.2
+    o :: chainSeq cfg sch pre o.store rest
 
 /-- insert a derivation step at position `i` of the chain -/
 def insertAt (i : Nat) (d : Step) (steps : List Step) : List Step := steps.take i ++ d :: steps.drop i
